@@ -43,6 +43,8 @@ def run(ctx):
             key = r["id"].replace("-t%s" % th, "")
             if key not in merged:
                 merged[key] = {"kind": "sched", "id": key, "what": r["what"], "collision": r["collision"], "runs": []}
+                if r.get("wide"):
+                    merged[key]["wide"] = True
             merged[key]["runs"] += r["runs"]
     recs = [m for m in merged.values() if m["runs"]]
     trace = os.path.join(ctx.out, "trace.ndjson")
